@@ -879,9 +879,26 @@ func (s *DB) getHistoricRootsAndNodes(
 	for _, k := range verifKeys(candidateBlocks) {
 		nodes = append(nodes, k)
 	}
+	// Oldest first: a version is found through its successors' merge
+	// sources, so if deleting is cut short, what is left must still hang
+	// together from the versions that stay, or no later vacuum finds it.
 	roots = make([]string, 0, len(candidateRoots))
+	listed := map[string]bool{}
+	var ancestorsFirst func(name string)
+	ancestorsFirst = func(name string) {
+		if _, deleting := candidateRoots[name]; !deleting || listed[name] {
+			return
+		}
+		listed[name] = true
+		if root, ok := rootCacheByName[name]; ok {
+			for _, source := range root.MergeSources {
+				ancestorsFirst(source)
+			}
+		}
+		roots = append(roots, name)
+	}
 	for _, k := range verifKeys(candidateRoots) {
-		roots = append(roots, k)
+		ancestorsFirst(k)
 	}
 	return roots, nodes, nil
 }
